@@ -638,3 +638,48 @@ def cases(tier='quick'):
     cs, meta = _cases3(tier)
     cs.append(CompareTargetStack())
     return cs, meta
+
+
+# ---------------------------------------------------------------------------------------------------------------
+# the three classes of instructions of a block the comparison relies on
+class InstructionClasses(NativeCase):
+    """finite family: on every instruction sequence of length <= N over {tag, JUMPDEST, ADD, PUSH, STOP, JUMP, RETURN, INVALID} the
+    functions instructions_initial_bytecode / instructions_to_optimize_bytecode / instructions_final_bytecode return, in order, ALL
+    the instructions whose name is in beginning_block / in neither set / in end_block - wherever they stand in the block.  The
+    specifications only see the middle class, so the comparison of the other two is the only guard against a block-ending
+    instruction that a log smuggles into the middle of a block (seed C11-6)"""
+    prop = 'C05'
+    name = "AsmBlock.instruction-classes(bounded)"
+
+    def run_native(self, tier):
+        import itertools
+        from sfs_generator.asm_block import AsmBlock
+        from sfs_generator.asm_bytecode import AsmBytecode
+        from global_params import constants
+        self.functions = (AsmBlock.instructions_initial_bytecode, AsmBlock.instructions_to_optimize_bytecode, AsmBlock.instructions_final_bytecode)
+        vocab = ["tag", "JUMPDEST", "ADD", "PUSH", "STOP", "JUMP", "RETURN", "INVALID"]
+        N = 3 if tier == 'quick' else 4
+        n = 0
+        for L in range(0, N + 1):
+            for seq in itertools.product(vocab, repeat=L):
+                blk = AsmBlock('c', 0, 'b', False)
+                blk.instructions = [AsmBytecode(-1, -1, -1, nm, "1" if nm in ("PUSH", "tag") else None) for nm in seq]
+                ins = blk.instructions
+                exp = ([i for i in ins if i.disasm in constants.beginning_block],
+                       [i for i in ins if i.disasm not in constants.beginning_block and i.disasm not in constants.end_block],
+                       [i for i in ins if i.disasm in constants.end_block])
+                got = (blk.instructions_initial_bytecode(), blk.instructions_to_optimize_bytecode(), blk.instructions_final_bytecode())
+                n += 1
+                same = all(len(g) == len(e) and all(a is b for a, b in zip(g, e)) for g, e in zip(got, exp))
+                self.ob('the three classes are the three filters of the whole instruction list', same, inputs=dict(instructions=list(seq)),
+                        info=[[i.disasm for i in g] for g in got])
+        self.assumptions = ("bounded: %d instruction sequences (length <= %d over 8 names)" % (n, N),)
+
+
+_cases4 = cases
+
+
+def cases(tier='quick'):
+    cs, meta = _cases4(tier)
+    cs.append(InstructionClasses())
+    return cs, meta
